@@ -118,7 +118,12 @@ func genC13(t *rapid.T) any {
 			q := C13Q{SQL: sql, Wrapped: w.Wrapped, Unordered: w.Unordered}
 			if b.Scenario == "path-selectors" {
 				q.Selector = true
-				q.SQL = rapid.SampledFrom([]string{"t[0]." + sc.k, "t." + sc.s, "t[each]." + sc.items + "[0]." + sc.p, "t[0:1]", "t2[each]." + sc.t2c, "t.{" + sc.k + "|string}", "mix=>t." + sc.items, "t[(0:1)]." + sc.v}).Draw(t, "selector")
+				q.SQL = rapid.SampledFrom([]string{"t[0]." + sc.k, "t." + sc.s, "t[each]." + sc.items + "[0]." + sc.p, "t[0:1]", "t2[each]." + sc.t2c, "t.{" + sc.k + "|string}", "mix=>t." + sc.items, "t[(0:1)]." + sc.v,
+					"t::[0]", "t." + sc.k + "::[0]", "t[each]." + sc.items + "::[0]", "t2::[each]." + sc.t2c, "t::[0]::" + sc.s, "t." + sc.items + "::[0]::[0]." + sc.p}).Draw(t, "selector")
+			}
+			if !q.Selector && !w.Wrapped && rapid.IntRange(0, 4).Draw(t, "chained") == 0 {
+				// a chained selector (`::`) as FROM path: parsed link by link on first use
+				q.SQL = strings.Replace(q.SQL, " FROM t", " FROM `t::[0:"+fmt.Sprint(rapid.IntRange(1, 3).Draw(t, "chainhi"))+"]`", 1)
 			}
 			if suffix != "" {
 				q.SQL = renameCols(q.SQL, names, suffix)
